@@ -234,6 +234,8 @@ class Action:
                     params[k] = Network.from_dict(v)
                     # refuse invalid network address or mask (raises netaddr.AddrFormatError)
                     netaddr.IPNetwork(str(params[k]))
+                    if not isinstance(params[k].mask, int) or isinstance(params[k].mask, bool):
+                        raise ValueError(f"Unsupported value in {k}: {v}")
                 case "target_service":
                     params[k] = Service.from_dict(v)
                 case "data":
